@@ -368,12 +368,21 @@ def save_json(data, file):
     if isinstance(data, np.ndarray):
         data = data.tolist()
 
-    if os.path.splitext(file)[-1] == '.json':
-        with open(file, 'w') as f:
-            json.dump(data, f, cls=NumpyEncoder)
-    else:
-        with gzip.open(file, 'wb') as gz:
-            gz.write(json.dumps(data, cls=NumpyEncoder).encode('utf-8'))
+    # Write to a temporary file next to the destination and atomically
+    # replace it, so that an interruption during the write cannot leave a
+    # truncated results file behind.
+    temp_file = f'{file}.tmp{os.getpid()}'
+    try:
+        if os.path.splitext(file)[-1] == '.json':
+            with open(temp_file, 'w') as f:
+                json.dump(data, f, cls=NumpyEncoder)
+        else:
+            with gzip.open(temp_file, 'wb') as gz:
+                gz.write(json.dumps(data, cls=NumpyEncoder).encode('utf-8'))
+        os.replace(temp_file, file)
+    finally:
+        if os.path.exists(temp_file):
+            os.remove(temp_file)
 
 
 def get_label(name: str, parameters: Dict[str, Any]) -> str:
